@@ -16,11 +16,13 @@ import ast
 from core.effects import Effects, Write
 from core.flow import Flow, Spec
 from core.guards import atom, conds_formula, f_not, implies
+from core.inline_stmt import inline_view
 from core.loader import AnalysisError, FuncInfo, Repo, ancestors, calls_in, header, norm, own_nodes, parent
 from core.report import Result
 from core.types import is_set_type, kind, members
 
-from .common import callees_of, cfg_of, conds, dotted, is_attr_call, reachable_funcs, stmt_of, types_of, where
+from .c15_roots import FRESH, EffectSummaries, Roots
+from .common import callees_of, cfg_of, conds, dotted, guard_formula, is_attr_call, reachable_funcs, stmt_of, types_of, where
 
 NXGRAPH = "pytestarch.eval_structure.networkxgraph"
 EVAL_GRAPH = "pytestarch.eval_structure.evaluable_graph"
@@ -116,223 +118,220 @@ def run_r1(repo: Repo, res: Result) -> None:
 # --------------------------------------------------------------------------- R2
 
 
+def _roots(repo: Repo) -> Roots:
+    key = "_c15_roots"
+    if key not in repo.__dict__:
+        repo.__dict__[key] = Roots(repo, types_of(repo))
+    return repo.__dict__[key]
+
+
+def _describe(tag, root_fn: FuncInfo) -> str:
+    r, level = tag
+    what = "receiver" if r[0] == "self" else f"argument `{r[2]}`" if r[0] == "param" else f"module-level `{r[1]}`" if r[0] == "global" else f"object of unknown origin `{r[1]}`"
+    return {0: f"its {what}", 1: f"state owned by its {what}", 2: f"an object reachable from its {what}"}[level] if r[0] in ("self", "param") else what
+
+
+class Rewrite:
+    """A store `self.F = V` in (the inlined view of) an evaluation entry point where V is computed from self.F."""
+
+    def __init__(self, root: FuncInfo, field_: str) -> None:
+        self.root = root
+        self.field = field_
+        self.stores: list[tuple[FuncInfo, ast.AST]] = []  # original statements (function, node)
+        self.verdict = "idempotent"  # idempotent | violated | undecided
+        self.detail = ""
+        self.flags: set[str] = set()
+
+
+def _is_replace(repo: Repo, ctx: FuncInfo, call: ast.Call) -> bool:
+    src = getattr(call, "_src", None)
+    mod = src[0].module if src is not None else ctx.module
+    fq = repo.resolve_name(mod, call.func) if isinstance(call.func, (ast.Name, ast.Attribute)) else None
+    return fq in ("dataclasses.replace", "copy.replace")
+
+
+def _falsy_const(e: ast.expr) -> bool:
+    return isinstance(e, ast.Constant) and e.value in (False, None, 0)
+
+
+def _classify_leaf(repo: Repo, v: FuncInfo, leaf: ast.expr, ident: set[str], T) -> tuple[str, set[str], str]:
+    """('identity' | 'rebuild' | 'bad' | 'opaque', flags cleared, detail) for one value stored back into the field."""
+    text = norm(leaf)
+    if text in ident:
+        return "identity", set(), ""
+    if isinstance(leaf, ast.Call):
+        rebuilt_from_old = False
+        kw = {k.arg: k.value for k in leaf.keywords if k.arg is not None}
+        if _is_replace(repo, v, leaf) and leaf.args and norm(leaf.args[0]) in ident:
+            rebuilt_from_old = True
+        elif T.ctor_class(v, leaf) is not None and any(norm(a) in ident or any(norm(x) in ident for x in ast.walk(a) if isinstance(x, (ast.Attribute, ast.Name))) for a in [*leaf.args, *kw.values()]):
+            rebuilt_from_old = True
+        if rebuilt_from_old:
+            guard = guard_formula(v, leaf)
+            cleared = set()
+            for k, val in kw.items():
+                if _falsy_const(val) and any(implies(guard, atom(f"bool({i}.{k})")) for i in ident):
+                    cleared.add(k)
+            if cleared:
+                return "rebuild", cleared, ""
+            return "bad", set(), f"`{norm(leaf, 90)}` builds a new value from the old one on a path that is not guarded by a flag of the old value which the new value clears: applying the rewrite twice differs from applying it once"
+        return "opaque", set(), f"`{norm(leaf, 90)}` is computed by a call that could not be expanded"
+    return "bad", set(), f"`{norm(leaf, 90)}` is neither the old value nor a guarded rebuild of it"
+
+
+def _leaves(v: FuncInfo, e: ast.expr, seen: set[str] | None = None) -> list[ast.expr]:
+    """Expressions a value may come from: conditional expressions are split, single-purpose locals are followed to their assignments."""
+    seen = seen if seen is not None else set()
+    if isinstance(e, ast.IfExp):
+        return _leaves(v, e.body, seen) + _leaves(v, e.orelse, seen)
+    if isinstance(e, ast.Name) and e.id not in v.param_names and e.id not in seen:
+        seen.add(e.id)
+        out: list[ast.expr] = []
+        simple = True
+        for n in own_nodes(v.node):
+            if isinstance(n, (ast.Assign, ast.AnnAssign)) and n.value is not None:
+                tg = n.targets if isinstance(n, ast.Assign) else [n.target]
+                for t in tg:
+                    if isinstance(t, ast.Name) and t.id == e.id:
+                        out += _leaves(v, n.value, seen)
+                    elif any(isinstance(x, ast.Name) and x.id == e.id for x in ast.walk(t)):
+                        simple = False
+            elif isinstance(n, (ast.For, ast.AsyncFor, ast.comprehension)) and any(isinstance(x, ast.Name) and x.id == e.id for x in ast.walk(n.target)):
+                simple = False
+            elif isinstance(n, (ast.AugAssign, ast.NamedExpr)) and isinstance(n.target, ast.Name) and n.target.id == e.id:
+                simple = False
+        if out and simple:
+            return out
+    return [e]
+
+
+def _param_tainted(v: FuncInfo, params: set[str]) -> set[str]:
+    """Locals of the view whose value may depend on one of `params`."""
+    tainted = set(params)
+    changed = True
+    while changed:
+        changed = False
+        for n in own_nodes(v.node):
+            src, tgts = None, []
+            if isinstance(n, ast.Assign):
+                src, tgts = n.value, n.targets
+            elif isinstance(n, (ast.AnnAssign, ast.AugAssign)) and n.value is not None:
+                src, tgts = n.value, [n.target]
+            elif isinstance(n, (ast.For, ast.AsyncFor, ast.comprehension)):
+                src, tgts = n.iter, [n.target]
+            elif isinstance(n, ast.NamedExpr):
+                src, tgts = n.value, [n.target]
+            if src is None:
+                continue
+            if any(isinstance(x, ast.Name) and x.id in tainted for x in ast.walk(src)):
+                for t in tgts:
+                    for x in ast.walk(t):
+                        if isinstance(x, ast.Name) and isinstance(x.ctx, ast.Store) and x.id not in tainted:
+                            tainted.add(x.id)
+                            changed = True
+    return tainted
+
+
+def find_rewrites(repo: Repo, root: FuncInfo) -> list[Rewrite]:
+    """Self-rewrites `self.F = h(self.F)` of an entry point, each judged for idempotence on the inlined view."""
+    T = types_of(repo)
+    sn = Roots.self_name(root)
+    if sn is None:
+        return []
+    v = inline_view(repo, root, T)
+    by_field: dict[str, list[ast.Assign]] = {}
+    for n in own_nodes(v.node):
+        if isinstance(n, (ast.Assign, ast.AnnAssign)) and n.value is not None:
+            tg = n.targets if isinstance(n, ast.Assign) else [n.target]
+            for t in tg:
+                if isinstance(t, ast.Attribute) and isinstance(t.value, ast.Name) and t.value.id == sn:
+                    by_field.setdefault(t.attr, []).append(n)
+    out: list[Rewrite] = []
+    others = {p for p in root.param_names if p != sn}
+    tainted = _param_tainted(v, others) if others else set()
+    for fld, stores in by_field.items():
+        ident = {f"{sn}.{fld}"}
+        # locals that only ever alias the old value
+        for n in own_nodes(v.node):
+            if isinstance(n, (ast.Assign, ast.AnnAssign)) and n.value is not None and norm(n.value) in ident:
+                tg = n.targets if isinstance(n, ast.Assign) else [n.target]
+                for t in tg:
+                    if isinstance(t, ast.Name) and _leaves(v, ast.Name(id=t.id, ctx=ast.Load())) and all(norm(x) == f"{sn}.{fld}" for x in _leaves(v, ast.Name(id=t.id, ctx=ast.Load()))):
+                        ident.add(t.id)
+        mentions_old = lambda e: any(norm(x) in ident for x in ast.walk(e) if isinstance(x, (ast.Attribute, ast.Name)))  # noqa: E731
+        leaves: list[tuple[ast.AST, ast.expr]] = []
+        for st in stores:
+            for leaf in _leaves(v, st.value):
+                leaves.append((st, leaf))
+        if not any(mentions_old(leaf) for _st, leaf in leaves):
+            continue  # not a rewrite of the old value: an ordinary write, judged by the effect rule
+        rw = Rewrite(root, fld)
+        for st in stores:
+            src = getattr(st, "_src", None)
+            rw.stores.append(src if src is not None else (root, st))
+        for st, leaf in leaves:
+            kind, flags, detail = _classify_leaf(repo, v, leaf, ident, T)
+            if kind == "rebuild":
+                rw.flags |= flags
+                dep = sorted({x.id for x in ast.walk(leaf) if isinstance(x, ast.Name) and x.id in tainted})
+                if dep:
+                    rw.verdict, rw.detail = "violated", f"the rewritten `{sn}.{fld}` depends on the argument(s) {', '.join(dep)} of {root.qualname}: the stored value differs between architectures"
+            elif kind == "bad" and rw.verdict != "violated":
+                rw.verdict, rw.detail = "violated", detail
+            elif kind == "opaque" and rw.verdict == "idempotent":
+                rw.verdict, rw.detail = "undecided", detail
+        if rw.verdict == "idempotent" and not rw.flags and all(norm(leaf) in ident for _st, leaf in leaves):
+            rw.detail = f"`{sn}.{fld}` is only ever re-assigned to itself"
+        elif rw.verdict == "idempotent":
+            rw.detail = f"`{sn}.{fld}` is replaced by a rebuilt copy only while its flag {', '.join(sorted(rw.flags))} is set, and the copy clears that flag; otherwise it is stored back unchanged: applying the rewrite twice equals applying it once, and the rewrite does not look at the architecture"
+        out.append(rw)
+    return out
+
+
 def run_r2(repo: Repo, res: Result) -> None:
     T = types_of(repo)
-    E = Effects(repo, T)
+    R = _roots(repo)
     roots = evaluation_roots(repo)
     reach = reachable_funcs(repo, roots, byname=True)
-    # classes whose instances are created during evaluation only (every construction site lies in the reachable region)
-    ctor_sites: dict[str, list[FuncInfo]] = {}
-    for f in repo.all_functions():
-        for c in calls_in(f.node):
-            ci = T.ctor_class(f, c)
-            if ci is not None:
-                ctor_sites.setdefault(ci.fq, []).append(f)
-    root_classes = {r.cls.fq for r in roots if r.cls is not None}
-
-    def evaluation_local(cls_fq: str) -> bool:
-        sites = ctor_sites.get(cls_fq, [])
-        return bool(sites) and cls_fq not in root_classes and all(s in reach for s in sites)
-
-    # summary: which of {self, params} a function may mutate (transitively), with the witnessing write
-    summary: dict[FuncInfo, dict[str, tuple[Write, list[str]]]] = {f: {} for f in reach}
-    reviewed: list[Write] = []
-
-    def is_reviewed(w: Write) -> bool:
-        # Rule._configuration = _convert_aliases(self._configuration): accepted while idempotent (checked below)
-        return (
-            w.fi.cls is not None and w.fi.cls.fq == f"{RULE}.Rule" and w.fi.name == "assert_applies" and w.how == "attr-store" and w.field == "_configuration"
-            and isinstance(w.node, ast.Assign) and isinstance(w.node.value, ast.Call) and "_convert_aliases" in norm(w.node.value.func)
-        )
-
-    direct_bad: list[tuple[Write, str]] = []
-    for f in reach:
-        for w in E.writes(f):
-            if w.root_kind == "self":
-                if f.name in ("__init__", "__post_init__"):
-                    continue
-                if is_reviewed(w):
-                    reviewed.append(w)
-                    continue
-                summary[f].setdefault("self", (w, [f.fq]))
-            elif w.root_kind == "param":
-                summary[f].setdefault(w.root, (w, [f.fq]))
-            elif w.root_kind == "local" and not w.fresh:
-                origin = _origin(f, w.root)
-                if origin is not None:
-                    summary[f].setdefault(origin, (w, [f.fq]))
-                else:
-                    direct_bad.append((w, "an object that is not created inside this function"))
-            elif w.root_kind in ("classvar", "global"):
-                pass  # R4
-            elif w.root_kind == "unknown":
-                direct_bad.append((w, "an object of unknown origin"))
-    # propagate to callers
-    changed = True
-    rounds = 0
-    while changed and rounds < 30:
-        changed = False
-        rounds += 1
-        for f in reach:
-            for c in calls_in(f.node):
-                cs, _how = T.callees(f, c, byname_fallback=True)
-                for g in cs:
-                    if g not in summary:
-                        continue
-                    for what, (w, path) in list(summary[g].items()):
-                        arg = _argument_for(g, c, what)
-                        if arg is None:
-                            continue
-                        root = _expr_root(f, arg)
-                        if root is None:
-                            continue
-                        rk, rn = root
-                        if rk == "fresh":
-                            continue
-                        if g.name in ("__init__", "__post_init__") and what == "self":
-                            continue
-                        key = rn
-                        if rk in ("self", "param"):
-                            if f.name in ("__init__", "__post_init__") and rk == "self":
-                                continue
-                            if key not in summary[f]:
-                                summary[f][key] = (w, [f.fq] + path)
-                                changed = True
-                        elif rk == "nonfresh-local":
-                            origin = _origin(f, rn)
-                            if origin is not None and origin not in summary[f]:
-                                summary[f][origin] = (w, [f.fq] + path)
-                                changed = True
-    n = 0
+    # reviewed exception: idempotent self-rewrites of an entry point (the alias rewrite of Rule._configuration)
+    rewrites: list[Rewrite] = []
+    accepted: set[int] = set()
     for r in roots:
-        for what, (w, path) in summary[r].items():
-            cls_of_write = w.fi.cls.fq if w.fi.cls is not None else ""
-            # a write to `self` of an evaluation-local class only matters if it propagated to a root's own state
-            n += 1
+        for rw in find_rewrites(repo, r):
+            rewrites.append(rw)
+            if rw.verdict != "violated":
+                accepted |= {id(node) for _fi, node in rw.stores}
+    S = EffectSummaries(repo, T, R, list(reach), skip=lambda w: id(w.node) in accepted)
+    for r in roots:
+        mine = [e for e in S.of(r) if e.tag[0][0] in ("self", "param") and e.tag[0][1] == r.fq]
+        unknown = [e for e in S.of(r) if e.tag[0][0] == "unknown"]
+        seen: set[int] = set()
+        for e in [*mine, *unknown]:
+            if id(e.write.node) in seen:
+                continue
+            seen.add(id(e.write.node))
+            w = e.write
             res.add(
                 "C15.R2",
                 repo.key(w.fi, stmt_of(w.node)) + f" [via {r.qualname}]",
                 False,
-                f"evaluation entry point {r.qualname} may modify its long-lived `{what}`: `{header(stmt_of(w.node))}` in {w.fi.qualname} (call path: {' -> '.join(p.split('::')[1] for p in path)}); the verdict of a later evaluation depends on this history",
+                f"evaluation entry point {r.qualname} may modify {_describe(e.tag, r)}: `{header(stmt_of(w.node))}` in {getattr(w.fi, 'shown', w.fi.qualname)} (call path: {' -> '.join(p.split('::')[1] for p in e.path)}); a long-lived object changes during evaluation, so the verdict of a later evaluation depends on this history",
                 where(w.fi, w.node),
                 kind="effect",
             )
-    for w, why in direct_bad:
-        n += 1
-        res.add("C15.R2", repo.key(w.fi, stmt_of(w.node)), False, f"`{header(stmt_of(w.node))}` (reachable from an evaluation entry point) modifies {why}", where(w.fi, w.node), kind="effect")
-    # discharged instances: every write in the reachable region that stays local
-    local_ok = 0
-    for f in reach:
-        for w in E.writes(f):
-            if (w.root_kind == "local" and w.fresh) or (w.root_kind == "self" and f.name in ("__init__", "__post_init__")):
-                local_ok += 1
-    res.add("C15.R2", "evaluation region::writes to fresh objects", True, f"{local_ok} writes in {len(reach)} reachable functions go to objects created during the evaluation (or constructors' own instance)", kind="effect")
-    for r in roots:
-        if not summary[r]:
+        if not mine and not unknown:
             res.add("C15.R2", f"{r.relpath}::{r.qualname}::no long-lived write", True, f"nothing reachable from {r.qualname} writes to its receiver, its arguments or objects reachable from them", where(r, r.node), kind="effect")
-    # the reviewed exception must be idempotent
-    rule = repo.cls(RULE, "Rule")
-    ca = repo.lookup_method(rule, "_convert_aliases")
-    if reviewed:
-        ok = ca is not None
-        detail = ""
-        if ok:
-            cfgp = ca.param_names[1]
-            rets = [s for s in own_nodes(ca.node) if isinstance(s, ast.Return)]
-            same = [s for s in rets if dotted(s.value) == cfgp]
-            rep = [s for s in rets if isinstance(s.value, ast.Call) and dotted(s.value.func) == "replace"]
-            ok = len(same) == 1 and len(rep) == 1 and len(rets) == 2
-            if ok:
-                kw = {k.arg: k.value for k in rep[0].value.keywords}
-                ok = isinstance(kw.get("rule_object_anything"), ast.Constant) and kw["rule_object_anything"].value is False
-                ok = ok and implies(conds_formula(conds(ca, same[0])), f_not(atom(f"bool({cfgp}.rule_object_anything)")))
-                ok = ok and not [w for w in E.writes(ca) if w.root_kind in ("param", "self", "classvar", "global")]
-            detail = "the alias rewrite returns its argument unchanged unless the alias flag is set, and clears the flag in a new object: applying it twice equals applying it once" if ok else "Rule._convert_aliases is not idempotent (must return the configuration unchanged when the alias flag is clear, and clear the flag in a new object otherwise)"
-        for w in reviewed:
-            res.add("C15.R2", repo.key(w.fi, stmt_of(w.node)) + " [reviewed: idempotent rewrite]", ok, detail, where(w.fi, w.node), kind="effect")
-    res.analysed["evaluation_reachable_functions"] = len(reach)
-    res.analysed["evaluation_local_classes"] = sorted(c.rsplit(".", 1)[-1] for c in ctor_sites if evaluation_local(c))
-
-
-def _argument_for(g: FuncInfo, call: ast.Call, what: str) -> ast.expr | None:
-    """Argument expression of `call` bound to parameter / receiver `what` of callee g."""
-    if what == "self":
-        if isinstance(call.func, ast.Attribute):
-            return call.func.value
-        return None
-    params = g.param_names
-    bound = g.cls is not None and g.outer is None and not g.is_staticmethod
-    if what not in params:
-        return None
-    idx = params.index(what) - (1 if bound else 0)
-    for k in call.keywords:
-        if k.arg == what:
-            return k.value
-    if 0 <= idx < len(call.args):
-        return call.args[idx]
-    return None
-
-
-def _expr_root(f: FuncInfo, e: ast.expr) -> tuple[str, str] | None:
-    from core.effects import _root_and_path
-
-    T = None
-    root, _path = _root_and_path(e)
-    if isinstance(root, ast.Name):
-        name = root.id
-        bound = f.cls is not None and f.outer is None and not f.is_staticmethod
-        if bound and f.params and name == f.params[0].arg:
-            return ("self", "self")
-        if name in f.param_names:
-            return ("param", name)
-        E = Effects(_REPO[0], types_of(_REPO[0]))
-        if E.fresh_local(f, name):
-            return ("fresh", name)
-        return ("nonfresh-local", name)
-    if isinstance(root, ast.Call):
-        E = Effects(_REPO[0], types_of(_REPO[0]))
-        return ("fresh", "") if E.fresh_expr(f, root) else ("nonfresh-local", "")
-    if isinstance(root, (ast.List, ast.Set, ast.Dict, ast.ListComp, ast.SetComp, ast.DictComp, ast.Constant, ast.JoinedStr, ast.Tuple)):
-        return ("fresh", "")
-    return None
-
-
-_REPO: list = [None]
-
-
-def _origin(f: FuncInfo, local: str) -> str | None:
-    """Parameter (or 'self') a non-fresh local is derived from: loop variable over / attribute of / alias of it."""
-    seen = set()
-    name = local
-    for _ in range(6):
-        if name in seen:
-            return None
-        seen.add(name)
-        src = None
-        for n in own_nodes(f.node):
-            if isinstance(n, (ast.For, ast.AsyncFor)) and any(isinstance(x, ast.Name) and x.id == name for x in ast.walk(n.target)):
-                src = n.iter
-            elif isinstance(n, ast.comprehension) and any(isinstance(x, ast.Name) and x.id == name for x in ast.walk(n.target)):
-                src = n.iter
-            elif isinstance(n, ast.Assign) and any(isinstance(t, ast.Name) and t.id == name for t in n.targets):
-                src = n.value
-        if src is None:
-            return None
-        from core.effects import _root_and_path
-
-        root, _p = _root_and_path(src)
-        while isinstance(root, ast.Call) and isinstance(root.func, ast.Attribute):
-            root, _p = _root_and_path(root.func.value)
-        if isinstance(root, ast.Name):
-            bound = f.cls is not None and f.outer is None and not f.is_staticmethod
-            if bound and f.params and root.id == f.params[0].arg:
-                return "self"
-            if root.id in f.param_names:
-                return root.id
-            name = root.id
+    res.add("C15.R2", "evaluation region::writes to fresh objects", True, f"{S.fresh_writes} writes in {len(reach)} reachable functions go to objects created during the evaluation", kind="effect")
+    for rw in rewrites:
+        fi0, node0 = rw.stores[0]
+        key = repo.key(fi0, stmt_of(node0)) + f" [reviewed: idempotent rewrite, via {rw.root.qualname}]"
+        if rw.verdict == "undecided":
+            res.undecide("C15.R2", key, f"{rw.root.qualname} stores a value computed from `self.{rw.field}` back into it, and idempotence of that rewrite cannot be established: {rw.detail}", where(fi0, node0))
         else:
-            return None
-    return None
+            ok = rw.verdict == "idempotent"
+            res.add("C15.R2", key, ok, rw.detail if ok else f"the rewrite of `self.{rw.field}` in {rw.root.qualname} is not idempotent: {rw.detail}", where(fi0, node0), kind="effect")
+    res.analysed["evaluation_reachable_functions"] = len(reach)
+    res.analysed["effect_rounds"] = S.rounds
 
 
 # --------------------------------------------------------------------------- R3
@@ -499,7 +498,6 @@ def run_r4(repo: Repo, res: Result) -> None:
 
 
 def run(repo: Repo) -> Result:
-    _REPO[0] = repo
     res = Result("C15")
     res.explanation = (
         "Decides purity structurally: (R1) the graph is frozen after construction, graph mutators are reachable only from the constructor and all "
